@@ -273,6 +273,11 @@ impl<P: TravellingSalespersonProblem> Component<P> for MinMaxPheromoneUpdate {
             pm[b][a] = (pm[b][a] + delta).clamp(self.min_pheromones, self.max_pheromones);
         }
 
+        // The bounds apply to every trail: evaporation alone can push a trail below the minimum.
+        for trail in pm.inner.iter_mut() {
+            *trail = trail.clamp(self.min_pheromones, self.max_pheromones);
+        }
+
         Ok(())
     }
 }
